@@ -1041,7 +1041,11 @@ class Attribute(utils.EventEmitter, Generic[_T]):
             case _:
                 value = self.value
 
-        self.emit(self.EVENT_READ, connection, b'' if value is None else value)
+        try:
+            self.emit(self.EVENT_READ, connection, b'' if value is None else value)
+        except Exception:
+            # A failing listener must not leave the request unanswered
+            logger.exception('!!! exception in read listener')
 
         if value is None:
             return b''
@@ -1127,7 +1131,11 @@ class Attribute(utils.EventEmitter, Generic[_T]):
             case _:
                 self.value = decoded_value
 
-        self.emit(self.EVENT_WRITE, connection, decoded_value)
+        try:
+            self.emit(self.EVENT_WRITE, connection, decoded_value)
+        except Exception:
+            # A failing listener must not leave the request unanswered
+            logger.exception('!!! exception in write listener')
 
     def __repr__(self):
         if isinstance(self.value, bytes):
